@@ -21,12 +21,26 @@ NOHOOK = object()
 _MODELS = {}
 
 
-def model(*targets):
+_ALWAYS = set()
+
+
+def model(*targets, always=False):
+    """register fn as the model of the given library callables.  always=True: the model also replaces
+    calls with all-concrete arguments (I/O, explicit overrides of typhon helpers)"""
     def deco(fn):
         for t in targets:
             _MODELS[_key(t)] = fn
+            if always:
+                _ALWAYS.add(_key(t))
         return fn
     return deco
+
+
+def model_is_always(f):
+    try:
+        return f in _ALWAYS
+    except TypeError:
+        return False
 
 
 def _key(f):
@@ -495,6 +509,11 @@ def reshape(arr, *shape):
             return SArr((n // c, c), lambda i, j: f(i * c + j), arr.dtype)
         if not isinstance(r, Sym) and r == 1:
             return SArr((1, n), lambda i, j: f(j), arr.dtype)
+        if not isinstance(r, Sym) and not isinstance(c, Sym) and not isinstance(n, Sym):
+            if r * c != n:
+                from .interp import PyRaise
+                raise PyRaise(ValueError("cannot reshape array of size %d into shape %r" % (n, shape)))
+            return SArr((r, c), lambda i, j: f(i * c + j), arr.dtype)       # C (row-major) order
     if arr.ndim == 2 and len(shape) == 2:
         r, c = shape
         n, m = arr.shape
@@ -1271,7 +1290,23 @@ def np_arange(interp, *args, **k):
     if len(args) == 1:
         n = args[0]
         return SArr((n,), lambda i: i, "int")
-    raise OutsideSubset("np.arange with symbolic bounds")
+    if len(args) == 2:
+        a, b = args
+        ctx = interp.ctx
+        if (isinstance(a, Sym) and a.is_real) or (isinstance(b, Sym) and b.is_real) or isinstance(a, fractions.Fraction) \
+                or isinstance(b, fractions.Fraction):
+            # float arange: ceil(b - a) elements a, a+1, ...   (0 if b <= a)
+            n = ctx.fresh("arange_n", "int")
+            d = sym.to_real(lift(b)) - sym.to_real(lift(a))
+            ctx.assume(z3.If(d > 0, z3.And(z3.ToReal(n.e) - 1 < d, d <= z3.ToReal(n.e)), n.e == 0))
+            return SArr((n,), lambda i: a + i, "real")
+        n = b - a
+        if isinstance(n, Sym):
+            n = sym.ite(n > 0, n, 0)
+        else:
+            n = max(n, 0)
+        return SArr((n,), lambda i: a + i, "int")
+    raise OutsideSubset("np.arange with symbolic bounds and step")
 
 
 @model(np.random.shuffle)
@@ -1336,3 +1371,68 @@ _MODELS[np.zeros] = _np_fill(0)
 _MODELS[np.ones] = _np_fill(1)
 _MODELS[np.zeros].__name__ = "np.zeros"
 _MODELS[np.ones].__name__ = "np.ones"
+
+
+# ----------------------------------------------------------------------------
+# if-conversion of  `if c: xs += [e]` / `xs.append(e)`  (avoids 2^n paths when a loop filters a concrete table)
+class SCondList:
+    """a list whose elements are present under symbolic conditions (order kept)"""
+    __pyvc_symbolic__ = True
+
+    def __init__(self, items=()):
+        self.items = [(True, v) for v in items]
+
+    def append_cond(self, cond, value):
+        self.items.append((cond, value))
+
+    def __pyvc_contains__(self, interp, item):
+        terms = []
+        for cond, v in self.items:
+            if is_sym(v) or is_sym(item):
+                eq = sym.truth(v == item)
+            else:
+                if not (v == item):
+                    continue
+                eq = z3.BoolVal(True)
+            terms.append(z3.And(sym.truth(cond), eq))
+        return mk(z3.Or(terms)) if terms else False
+
+    def __pyvc_iter__(self, interp):
+        if all(c is True for c, _ in self.items):
+            return [v for _, v in self.items]
+        raise OutsideSubset("iteration over a conditionally filled list needs a per-element case split")
+
+    def __pyvc_len__(self):
+        n = 0
+        for cond, _ in self.items:
+            n = n + (1 if cond is True else sym.ite(mk(sym.truth(cond)), 1, 0))
+        return n
+
+
+def if_convert_append(interp, node, frame, cond):
+    import ast
+    if node.orelse or len(node.body) != 1:
+        return False
+    st = node.body[0]
+    target, elts = None, None
+    if isinstance(st, ast.AugAssign) and isinstance(st.op, ast.Add) and isinstance(st.target, ast.Name) \
+            and isinstance(st.value, ast.List) and len(st.value.elts) == 1:
+        target, elt = st.target.id, st.value.elts[0]
+    elif isinstance(st, ast.Expr) and isinstance(st.value, ast.Call) and isinstance(st.value.func, ast.Attribute) \
+            and st.value.func.attr == "append" and isinstance(st.value.func.value, ast.Name) and len(st.value.args) == 1:
+        target, elt = st.value.func.value.id, st.value.args[0]
+    else:
+        return False
+    if target not in frame.locals:
+        return False
+    cur = frame.locals[target]
+    if isinstance(cur, list):
+        cur = SCondList(cur)
+        frame.locals[target] = cur
+    if not isinstance(cur, SCondList):
+        return False
+    if not isinstance(elt, (ast.Name, ast.Constant, ast.Attribute, ast.Subscript, ast.Tuple)):
+        return False
+    cur.append_cond(cond, interp.eval(elt, frame))
+    interp.trusted_used.add("encoding:if-conversion of a conditional list append")
+    return True
